@@ -259,13 +259,43 @@ def extract_buffer_bits(repo=None):
                 raise TranslateError('buffer_dict[%r] = %s' % (key, txt))
     if int_keys != {'n_cells', 'gt0', 'gt1', 'ge1'}:
         raise TranslateError('integer buffers: %s' % sorted(int_keys))
+    # the buffers must reach the scratch file AS THEY ARE: inside the loop over
+    # buffer_dict every create_dataset call takes `buffer_dict[k]` itself (or a
+    # local that is only ever assigned `buffer_dict[k]`) as data and no dtype;
+    # layout options (chunks, compression, ...) are lossless and irrelevant
     written = None
     for node in _walk_all(worker_fns):
         if isinstance(node, ast.For) and ast.unparse(node.iter) in (
                 'buffer_dict', 'buffer_dict.keys()'):
-            body = [ast.unparse(b).replace(' ', '') for b in node.body]
-            written = body
-    if written != ['dst.create_dataset(k,data=buffer_dict[k])']:
+            key = ast.unparse(node.target)
+            want = 'buffer_dict[%s]' % key
+            calls = [c for c in ast.walk(node) if isinstance(c, ast.Call)
+                     and isinstance(c.func, ast.Attribute)
+                     and c.func.attr == 'create_dataset']
+            if not calls:
+                continue
+            problems = []
+            for c in calls:
+                kws = {k.arg: k.value for k in c.keywords}
+                data = kws.get('data', c.args[1] if len(c.args) > 1 else None)
+                if data is None or 'dtype' in kws:
+                    problems.append(ast.unparse(c))
+                    continue
+                txt = ast.unparse(data).replace(' ', '')
+                if txt == want:
+                    continue
+                if isinstance(data, ast.Name):
+                    assigned = [ast.unparse(n.value).replace(' ', '')
+                                for n in ast.walk(node)
+                                if isinstance(n, ast.Assign)
+                                and any(isinstance(tg, ast.Name)
+                                        and tg.id == data.id
+                                        for tg in n.targets)]
+                    if assigned and all(x == want for x in assigned):
+                        continue
+                problems.append(ast.unparse(c))
+            written = problems
+    if written is None or written:
         raise TranslateError('buffers are not written as they are: %s'
                              % written)
     # the reduction may live in the caller or in a private helper of the same
